@@ -29,6 +29,11 @@ def stopCmd (cmd : String) (args : List String) : Option String :=
     (args.mapM parseEv).map fun evss =>
       let s := run {} evss.flatten
       s!"handed={showNats s.handed.reverse} file={showNats s.file.reverse} connected={if s.connected then 1 else 0} dirty={if s.dirty then 1 else 0}"
+  | "STOPRUNMQTT" =>
+    -- the thread-based MQTT gateway: `disconnect` is the moment stop() sets the stop event
+    (args.mapM parseEv).map fun evss =>
+      let s := runMqtt {} evss.flatten
+      s!"handed={showNats s.handed.reverse} file={showNats s.file.reverse} connected={if s.connected then 1 else 0} dirty={if s.dirty then 1 else 0}"
   | _ => none
 
 end MySensors.Driver
